@@ -669,7 +669,8 @@ def check_from_hdf5_memo(prog, rep):
 
 def check_save_reduce(prog, rep):
     m = prog.module(HIO)
-    f = m.func('Hdf5Saver.save_reduce')
+    from ..normal import unroll_literal_loops
+    f = unroll_literal_loops(m.func('Hdf5Saver.save_reduce'))   # a loop over a (key, value) table
     g = m.func('Hdf5Loader.load_reduce')
     read_keys = set()
     for c in body_nodes(g):
